@@ -38,9 +38,10 @@ def rule_tee1(A: Analysis, rep):
         rep.bad("TEE1", "copy loop", fi.node, "expected one read loop, found %d" % len(loops))
         return
     l = loops[0]
-    reads = [s for s in walk_local(fi.node) if isinstance(s, ast.Assign) and isinstance(s.value, ast.Call) and isinstance(s.value.func, ast.Attribute)
+    reads = [s for s in walk_local(fi.node) if isinstance(s, (ast.Assign, ast.AnnAssign)) and isinstance(s.value, ast.Call) and isinstance(s.value.func, ast.Attribute)
              and s.value.func.attr in ("read", "read1", "readline", "readinto") and norm(s.value.func.value) == pipe]
-    names = {norm(r.targets[0]) for r in reads}
+    _tg = lambda r: r.targets[0] if isinstance(r, ast.Assign) else r.target
+    names = {norm(_tg(r)) for r in reads}
     if not reads or len(names) != 1 or not any(id(r) in {id(x) for x in walk_local(l)} for r in reads):
         rep.bad("TEE1", "copy loop", l, "expected reads of the pipe into one variable inside the loop, found %s" % [norm(r) for r in reads])
         return
@@ -51,8 +52,8 @@ def rule_tee1(A: Analysis, rep):
     for n in g.nodes:
         if n.kind == "test" and n.ast is not None:
             for pol in (True, False):
-                d = A.dnf(n.ast, pol, fi)
-                if d and all(("empty(%s)" % data, True) in c for c in d):
+                d = A.dnf(n.ast, pol, fi, inline=False)
+                if d and all(("empty(%s)" % data, True) in c or ("t(%s)" % data, False) in c for c in d):
                     eof_edges.append((n, "T" if pol else "F"))
     first = [r for r in rds if g.dominates(r, g.node_of(l) if g.nodes_of(l) else r, skip_labels=is_exc) or id(r.ast) in {id(x) for x in walk_local(l)}]
     r1 = g.reach(rds, skip_labels=is_exc, removed_edges=eof_edges)
@@ -101,7 +102,12 @@ def rule_tee1(A: Analysis, rep):
     # submission: tee_pipe submits _tee_pipe_run with (pipe, stream, file_name)
     tp = A.fn("utils.tee.TeeProcessor.tee_pipe")
     r = [x for x in walk_local(tp.node) if isinstance(x, ast.Return)]
-    rep.check(len(r) == 1 and norm(r[0].value) == "self._executor.submit(self._tee_pipe_run, %s, %s, %s)" % tuple(tp.params[1:4]), "TEE1", "tee thread gets (pipe, stream, file)", tp.node,
+    okc = False
+    if len(r) == 1 and isinstance(r[0].value, ast.Call) and norm(r[0].value.func) == "self._executor.submit" and r[0].value.args and norm(r[0].value.args[0]) == "self._tee_pipe_run":
+        sub = ast.Call(func=r[0].value.args[0], args=r[0].value.args[1:], keywords=r[0].value.keywords)
+        b_ = A.bind_args(sub, fi)
+        okc = {k: norm(v_) for k, v_ in b_.items()} == {fi.params[1]: tp.params[1], fi.params[2]: tp.params[2], fi.params[3]: tp.params[3]}
+    rep.check(okc, "TEE1", "tee thread gets (pipe, stream, file)", tp.node,
               "", "tee_pipe submits `%s`" % (norm(r[0].value) if r else "?"))
 
 
